@@ -9,7 +9,8 @@ prefix of an expansion of one of its rules.  NOTE that this is weaker than "a pr
 rightmost path cut short), and deliberately so: the real parser does yield partial trees in which a node that was cut
 short is followed by a sibling (`<start> ::= <b> <c> | "x" <c> "z"; <b> ::= "x" "y"; <c> ::= "" "q"` on "x" yields
 `<start>(<b>("x"), <c>(""))`: a state advanced over the unfinished `<b>` is advanced again, by a state of the last
-column that starts there) — see the report; the stronger statement is false of the code.
+column that starts there) — `findings/OBS-C04-prefix-sibling-after-unfinished`, theorem
+`C04_prefix_rightmost_path_only_is_false_witness`; the stronger statement is false of the code.
 
 `GoodP` is the chart invariant of `Proofs/C04Chart.lean` in the same continuation form with `PreL` in place of `DerL`
 (the proofs are those of `C04Chart`, line by line; no finishedness is needed any more: a state completed early is
